@@ -317,10 +317,12 @@ theorem pull_frame (s : S) (b r : Nat) :
 /-- All deltas of a piece of script are non-negative and no clock's beats are moved by hand
     (the `beats` setter deliberately makes pending tasks overdue). -/
 def NonNeg (acts : List Act) : Prop :=
-  (∀ d, Act.yield d ∈ acts → 0 ≤ d) ∧ (∀ i b, Act.setBeats i b ∉ acts)
+  (∀ d, Act.yield d ∈ acts → 0 ≤ d) ∧ (∀ i b, Act.setBeats i b ∉ acts) ∧
+  (∀ r c d, Act.defer r c d ∈ acts → 0 ≤ d)
 
 theorem NonNeg.tail {a : Act} {rest : List Act} (h : NonNeg (a :: rest)) : NonNeg rest :=
-  ⟨fun d hd => h.1 d (by simp [hd]), fun i b hm => h.2 i b (by simp [hm])⟩
+  ⟨fun d hd => h.1 d (by simp [hd]), fun i b hm => h.2.1 i b (by simp [hm]),
+   fun r c d hm => h.2.2 r c d (by simp [hm])⟩
 
 /-- A routine body keeps `Mono`: whatever it does (yield, spawn, tempo changes, pause / resume /
     stop, wait / signal …) nothing pending ends up before the current logical time. -/
@@ -387,7 +389,23 @@ theorem runActs_mono {t : Rat} {x : Ctx} (acts : List Act) (hn : NonNeg acts) {s
       obtain ⟨p1, p2, p3⟩ := pull_frame (s.bumpPc x.rid) x.rid r
       exact ih' (h1.of_same p1 p2 p3)
     | raise => exact h1.of_same rfl rfl rfl
-    | setBeats i b => exact absurd (by simp) (hn.2 i b)
+    | setBeats i b => exact absurd (by simp) (hn.2.1 i b)
+    | defer r c d =>
+      simp only
+      have hd : 0 ≤ d := hn.2.2 r c d (by simp)
+      have h2 : Mono t x ((s.bumpPc x.rid).setRt r
+          { (s.bumpPc x.rid).rts r with created := true, state := .suspended, pc := 0,
+                                        startBeats := (s.bumpPc x.rid).beatsNow c + d }) :=
+        h1.of_same rfl rfl rfl
+      apply ih'
+      apply h2.add
+      have hp := h1.wf.params c
+      have e1 : ((s.bumpPc x.rid).params c).beats2secs ((s.bumpPc x.rid).beatsNow c) = (s.bumpPc x.rid).mainSecs :=
+        Tempo.b2s_s2b hp _
+      have := Tempo.b2s_mono hp (a := (s.bumpPc x.rid).beatsNow c) (b := (s.bumpPc x.rid).beatsNow c + d)
+        (by linarith)
+      simp only [setRt_mainSecs, setRt_params, setRt_beatsNow]
+      linarith
 
 /-! ### Choosing the next task -/
 
@@ -582,6 +600,7 @@ theorem runActs_script (acts : List Act) (x : Ctx) (s : S) (i : Nat) :
       · rw [ih]; exact hb i
       · rw [ih]; exact hb i
     | setBeats j b => simp only; rw [ih]; exact hb i
+    | defer r c d => simp only; rw [ih, add_script]; refine (hset _ _ _ ?_).trans (hb i); rfl
     | pause r =>
       simp only
       repeat' split
@@ -623,7 +642,8 @@ structure Good (s : S) : Prop where
   nonneg : ∀ r, NonNeg (s.rts r).script
 
 theorem NonNeg.drop {l : List Act} (h : NonNeg l) (n : Nat) : NonNeg (l.drop n) :=
-  ⟨fun d hd => h.1 d (List.mem_of_mem_drop hd), fun i b hm => h.2 i b (List.mem_of_mem_drop hm)⟩
+  ⟨fun d hd => h.1 d (List.mem_of_mem_drop hd), fun i b hm => h.2.1 i b (List.mem_of_mem_drop hm),
+   fun r c d hm => h.2.2 r c d (List.mem_of_mem_drop hm)⟩
 
 /-- Executing a task that is due no later than everything else keeps `Good` and moves the
     logical time to that task's time. -/
@@ -675,7 +695,7 @@ theorem stepNrt_good {s : S} (h : Good s) :
 /-- Actions of the C05 statement: everything except pause / resume / wait / signal (which
     restart a routine from another routine's time and belong to C10 / C11). -/
 def Act.plain : Act → Bool
-  | .pause _ | .resume _ | .wait _ | .signal _ | .pull _ => false
+  | .pause _ | .resume _ | .wait _ | .signal _ | .pull _ | .defer _ _ _ => false
   | _ => true
 
 def deltaOf : Act → Rat
@@ -1051,6 +1071,7 @@ theorem runActs_exact {x : Ctx} (acts : List Act) {s : S} (h : ExactRun s x)
     | wait c => simp [Act.plain] at hpl
     | signal c => simp [Act.plain] at hpl
     | pull r => simp [Act.plain] at hpl
+    | defer r c d => simp [Act.plain] at hpl
 
 /-- Executing ANY pending task (whichever clock thread the environment picks, or the one
     `main.process()` picks) keeps `Exact`. -/
@@ -1150,6 +1171,7 @@ theorem runActs_trace_mono (acts : List Act) (x : Ctx) (s : S) (ev : Ev) (h : ev
       · exact ih _ hb
       · exact ih _ (List.mem_cons_of_mem _ hb)
     | setBeats i b => exact ih _ hb
+    | defer r c d => exact ih _ hb
     | pause r =>
       simp only
       repeat' split
@@ -1282,6 +1304,7 @@ theorem runActs_traceExact (acts : List Act) (x : Ctx) {s : S} (h : TraceExact s
     | wait c => simp [Act.plain] at hpl
     | signal c => simp [Act.plain] at hpl
     | pull r => simp [Act.plain] at hpl
+    | defer r c d => simp [Act.plain] at hpl
 
 /-- Executing a pending task whose beat obeys the law (`Exact`) keeps `TraceExact`. -/
 theorem exec_traceExact {s : S} (h : TraceExact s) (hE : Exact s) {e : Entry} (he : e ∈ s.pend) :
